@@ -286,6 +286,11 @@ def run(tier, rep):
     # ---- A2c programs whose instance closure is infinite (polymorphic recursion) or finite: monomorphisation must end
     import fam_c07
     add_texts("polyrec", [t for _, t, _ in fam_c07.polyrec_programs()])
+    # ---- A2d every escape form inside string literals, in expression and in pattern position (incl. lone and swapped surrogates)
+    escs = ["\\uDC00", "\\uDFFF", "\\uD800", "\\uDBFF", "\\uD83D\\uDE00", "\\uDE00\\uD83D", "\\uD83Dx", "\\u0000", "\\uFFFF", "\\uD7FF", "\\uE000", "\\u00e9",
+            "\\q", "\\", "\\u12", "\\u{41}", "\\x41", "\\0", "\\n\\t\\r\\b\\f\\/\\\\\\\""]
+    add_texts("escapes", ['fn main() -> unit {\n    let s = "' + e + '";\n    let _ = string_println(s);\n    ()\n}\n' for e in escs]
+              + ['fn main() -> unit {\n    let s = "a";\n    let n = match s { "' + e + '" => 1, _ => 0 };\n    let _ = string_println(int32_to_string(n));\n    ()\n}\n' for e in escs])
     # ---- A3 nesting, moderate depth in process
     add_texts("nest", [nest(k, d) for k in NEST_KINDS for d in ((16, 64) if quick else (16, 64, 200))])
     # ---- A4 program families (well-typed) and ill-typed variants
@@ -384,6 +389,12 @@ def run(tier, rep):
             f = f"{nroot}/{kind}_{d}/main.gom"          # one directory each: files next to the entry file belong to its package
             open(f, "w").write(nest(kind, d))
             cli_jobs.append((f"cli-nest#{kind}:{d}", "run", ["run", "--dump-go", f], True, {"shape": kind, "depth": d}))
+            if d <= 1000:
+                # the other entry points have their own threads and stacks
+                od = f"{nroot}/{kind}_{d}/out"
+                os.makedirs(od, exist_ok=True)
+                cli_jobs.append((f"cli-nest-check#{kind}:{d}", "check", ["check", "--package", "Main", "--input", f, "--interface-path", od, "--output", f"{od}/Main"], False, {"shape": kind, "depth": d}))
+                cli_jobs.append((f"cli-nest-build#{kind}:{d}", "build", ["build", "--package", "Main", "--input", f, "--interface-path", od, "--output", f"{od}/MainB"], False, {"shape": kind, "depth": d}))
     # ---- D CLI on hostile files
     hroot = workdir("c04-hostile")
     hostile = {"nonutf8.gom": b"fn main() { \xff\xfe }", "empty.gom": b"", "bom.gom": b"\xef\xbb\xbffn main() { () }\n", "nul.gom": b"fn main() { \x00 }",
